@@ -320,3 +320,47 @@ CHECKS = {
         "note": "The signature model is a recursive-descent parser, not a mirror of the C automaton; its equivalence with the C code rests on the K-tie.",
     },
 }
+
+
+# ---- round 5: additions to the claims above (appended to `text`) and replacements of notes that no longer hold
+ADD_TEXT = {
+    "C09": " Round 5: callees and callers that do not read (queue over max_outgoing_bytes: a refused call opens no slot, full_queue_opens_no_slot); and, over the clock layer "
+           "(lean/Dbus/Model/Bus/Timed.lean: a deadline is the stamp taken when the slot is recorded plus reply_timeout, nothing moves it), a finite reply_timeout of 800 s against a "
+           "virtual clock (LD_PRELOAD shim) that the history advances in steps of 450 s and 700 s: exactly the slots older than the timeout expire, each with one NoReply, younger ones "
+           "survive (expire_due_one_noreply_each, reply_deadline_is_fixed, young_call_survives_reachable, no_reply_timeout_nothing_expires; timedInv_run: in every state reachable with "
+           "activation and time the stamps are in step with the duplicate-free pending list). The profile that slept through a real 300 ms timeout was removed (false alarms under load).",
+    "C05": " Round 5: an owner whose outgoing queue is full gets nothing and the sender one error (stalled_owner_gets_nothing). Schedules: in the frozen-batches profile the daemon is held "
+           "(SIGSTOP) while clients write and hang up, so that it finds calls and the hang-up of their addressee in one turn of its main loop; the model runs such a batch connection by "
+           "connection and the check accepts the observations if some order of the connections explains them (depth-first search, at most 120 model runs per history); the trace oracle has "
+           "a clause for batches (delivered once to a connection entitled to the name, or exactly one error).",
+    "C19": " Round 5, deadlines: over the clock layer (lean/Dbus/Model/Bus/Timed.lean) the start timeout belongs to the activation - fixed when the program is started, not moved by senders "
+           "that join later (joining_keeps_the_start_deadline, start_deadline_is_fixed, one_timeout_per_due_activation); histories advance the daemon's virtual clock in steps of 450 s and "
+           "700 s against a start timeout of 1000 s, so that an activation joined at 700 s must still time out at 1000 s. A disagreement of the command-line splitter with the model is reported "
+           "with a failing input when POSIX shell quoting (Python's shlex, an independent reading) sides with the model.",
+    "C13": " Round 5: the invariant is also proved for every state reachable with service activation and time (limits_never_exceeded_with_activation_and_time: the leaf induction lifted to the "
+           "activation and clock layers, Proofs/Bus/GenericA.lean).",
+    "C04": " Round 5: queue well-formedness is also proved for every state reachable with service activation and time (queues_well_formed_with_activation_and_time).",
+    "C14": " Round 5: the library half also sweeps every basic type including UNIX_FD through every failing allocation of dbus_message_iter_append_basic on a freshly allocated message and demands that "
+           "after the message is released and dbus_shutdown() has emptied the message cache no heap block and no descriptor is left.",
+    "C15": " Round 5: descriptor-carrying messages whose header alone is larger than a socket buffer (300 kB - 1.7 MB object paths), which the bus has to write in several pieces: the descriptors "
+           "belong to the first piece only.",
+    "C10": " Round 5: a flood scenario (two authenticated clients stream signals without pause while auth_timeout must expire max_incomplete_connections silent sockets and a waiting client must then "
+           "be served: the bus's timers have to run however busy its sockets are); after raw writes the harness waits until the kernel reports that the daemon has read them (TIOCOUTQ).",
+    "C08": " Round 5: near misses of the right DBUS_COOKIE_SHA1 digest (proper prefixes from 1 to 39 digits, extensions, one digit changed, other case), and the trace oracle checks that every OK of "
+           "that mechanism answers a response carrying exactly the SHA-1 of challenge:client-challenge:cookie.",
+    "C17": " Round 5: messages that are not replies but carry an outstanding call's serial in REPLY_SERIAL (libdbus pairs by that field alone; the call must still complete exactly once).",
+    "C03": " Round 5: the header-hygiene oracle also runs over histories with monitors (a message is captured whether or not it is relayed) and over activation histories (messages held for a service "
+           "being started and delivered later).",
+    "C06": " Round 5: 80 deterministic configurations for rules naming a header field (send/receive x interface/member/path/error x allow-after-deny/deny-after-allow x message types) against "
+           "messages with, without and with another value of that field.",
+}
+NEW_NOTE = {
+    "C09": "Partial: 'exactly one NoReply' is 'at most one, exactly one unless the caller's own receive policy refuses the bus's error'; when a recipient's queue is full is an input of the "
+           "environment (stall events), not computed from message sizes; timer precision is not modelled (the virtual clock only ever stands at least 100 s away from any deadline).",
+    "C05": "Partial: when a queue is full is an input (stall events); which of several connections found ready in one turn of the main loop is served first is not predicted (any order is "
+           "accepted); auto-start holding is C19's; the daemon is single-threaded, so 'the moment the bus processes it' is a step of the model.",
+}
+for _k, _v in ADD_TEXT.items():
+    CHECKS[_k]["text"] = CHECKS[_k]["text"].rstrip() + _v
+for _k, _v in NEW_NOTE.items():
+    CHECKS[_k]["note"] = _v
